@@ -296,6 +296,42 @@ impl<'a, B, OC, SC, L> StorageResolver<'a, B, OC, SC, L> {
     }
 }
 
+/// Yield points for a test scheduler (only compiled with `--cfg pdf_rs_pdf_verif`).
+/// `StorageResolver::get` calls the installed callback at its synchronisation points;
+/// without a callback the calls do nothing.
+#[cfg(pdf_rs_pdf_verif)]
+pub mod verif_hook {
+    use std::sync::{Arc, RwLock};
+    use crate::object::PlainRef;
+
+    #[derive(Copy, Clone, Debug, PartialEq, Eq)]
+    pub enum Point {
+        /// entry of `get`, before the recursion guard is consulted
+        Enter,
+        /// the key was pushed on the recursion guard; the cache is called next
+        AfterPush,
+        /// the cache call returned
+        AfterCache,
+        /// the result is known; the key is popped from the recursion guard next
+        BeforePop,
+    }
+    pub type Callback = dyn Fn(Point, PlainRef) + Send + Sync;
+
+    static HOOK: RwLock<Option<Arc<Callback>>> = RwLock::new(None);
+
+    /// install (or remove) the process-global callback
+    pub fn install(callback: Option<Arc<Callback>>) {
+        *HOOK.write().unwrap() = callback;
+    }
+    #[inline]
+    pub(crate) fn yield_point(point: Point, key: PlainRef) {
+        let callback = HOOK.read().unwrap().clone();
+        if let Some(callback) = callback {
+            callback(point, key);
+        }
+    }
+}
+
 struct Defer<F: FnMut()>(F);
 impl<F: FnMut()> Drop for Defer<F> {
     fn drop(&mut self) {
@@ -321,6 +357,8 @@ where
         let key = r.get_inner();
         self.storage.log.log_get(key);
         
+        #[cfg(pdf_rs_pdf_verif)]
+        verif_hook::yield_point(verif_hook::Point::Enter, key);
         {
             debug!("get {key:?} as {}", std::any::type_name::<T>());
             let mut chain = self.chain.lock().unwrap();
@@ -330,9 +368,13 @@ where
             chain.push(key);
         }
         let _defer = Defer(|| {
+            #[cfg(pdf_rs_pdf_verif)]
+            verif_hook::yield_point(verif_hook::Point::BeforePop, key);
             let mut chain = self.chain.lock().unwrap();
             assert_eq!(chain.pop(), Some(key));
         });
+        #[cfg(pdf_rs_pdf_verif)]
+        verif_hook::yield_point(verif_hook::Point::AfterPush, key);
         
         // set when the closure runs, i.e. when `res` was computed by this call (for `T`)
         let computed = std::cell::Cell::new(false);
@@ -347,6 +389,8 @@ where
                 }
             }
         });
+        #[cfg(pdf_rs_pdf_verif)]
+        verif_hook::yield_point(verif_hook::Point::AfterCache, key);
         match res {
             Ok(any) => {
                 match any.downcast() {
